@@ -82,6 +82,11 @@ def signals(rec):
                 dvs = ocp.der(v) if with_der else None      # requested before the first transcription
                 ddvs = ocp.der(dvs) if with_der and d >= 2 else None
                 mixed = ocp.der((x + v) * ocp.t) if with_der else None     # explicit time and a signal in one expression
+                # a second signal, declared later; its derivative is requested first; both orders of appearance in one expression
+                w2 = ocp.variable(grid='bspline', order=d) if with_der else None
+                if with_der:
+                    dw2 = ocp.der(w2)
+                    two_a = ocp.der(w2 * ocp.t + v); two_b = ocp.der(v * ocp.t + 3 * w2)
                 ocp.add_objective(ocp.integral(u ** 2 + v ** 2))
                 ocp.subject_to(v <= 100)
                 ocp.solver('ipopt')
@@ -119,6 +124,20 @@ def signals(rec):
                     if ddvs is not None:
                         _, ddv = quiet(ocp.sample, ddvs, grid='integrator', refine=R)
                         res.append(('C17.b:der2:' + tag,) + seq_compare(list(ev(ddv) * T * T), rec['ddvalues']))
+                    # two signals: w2 = v / 2 at this probe
+                    locw = locate(ocp._method.signals[w2].coeff, opti, pts)
+                    if len(locw) == N + d and all(l is not None for l in locw):
+                        xv2 = xv.copy()
+                        for l, cval in zip(locw, rec['coef']): xv2[l[0]] = 0.5 * fl(cval) / l[1]
+                        ev2 = lambda e: np.array(ca.Function('f', [vx, vp], [e])(xv2, pv)).reshape(-1)
+                        tk2, va = quiet(ocp.sample, two_a, grid='control'); _, vb = quiet(ocp.sample, two_b, grid='control')
+                        tkv2 = ev2(tk2); ga = ev2(va); gb = ev2(vb)
+                        vv = [fl(rec['values'][j]) for j in bp]; dv_ = [fl(rec['dvalues'][j]) / T for j in bp]
+                        wa = [0.5 * dv_[i] * tkv2[i] + 0.5 * vv[i] + dv_[i] for i in range(len(bp))]           # (w t + v)' = w' t + w + v'
+                        wb = [dv_[i] * tkv2[i] + vv[i] + 1.5 * dv_[i] for i in range(len(bp))]                   # (v t + 3 w)' = v' t + v + 3 w'
+                        for nm, got_, want_ in (('a', ga, wa), ('b', gb, wb)):
+                            ok2 = len(got_) == len(want_) and all(abs(a_ - b_) <= 1e-9 * max(1, abs(b_)) for a_, b_ in zip(got_, want_))
+                            res.append(('C16.a:der_two_signals:%s:%s' % (nm, tag), 'ok' if ok2 else 'mismatch', 'sampled %s expected %s' % (list(np.round(got_, 6))[:4], list(np.round(want_, 6))[:4])))
                     # d/dt[(x+v) t] = (x' + v') t + (x + v); at this probe x = u = 0, so it is v'(t) t + v(t)
                     tk, mv = quiet(ocp.sample, mixed, grid='control')
                     tkv = ev(tk); got = ev(mv)
